@@ -130,13 +130,25 @@ def evaluate(spec):
     else:
         # (puts byte intervals back into listing order when the closing
         # re-layout scrambled them: finding C01-layout-reorders-intervals)
-        Lm.Observed(built)
+        obs = Lm.Observed(built)
+        # positions (in the edited listing) where an input block ends whose input successor is not code
+        ends = set()
+        for si, (_name, idxs) in enumerate(case.sections):
+            for k, g in enumerate(idxs):
+                if k + 1 < len(idxs) and case.blocks[idxs[k + 1]].code:
+                    continue
+                end = exp.block_start[idxs[k + 1]][1] if k + 1 < len(idxs) and idxs[k + 1] in exp.block_start else len(exp.sec_bytes[si])
+                ends.add((si, end))
+
+        def nocode_after(b):
+            return b not in set(built.blocks.values()) and obs.block_pos(b) in ends
+
         input_next = {}
         for _name, idxs in case.sections:
             for k, g in enumerate(idxs):
                 input_next[built.blocks[g]] = built.blocks[idxs[k + 1]] if k + 1 < len(idxs) else None
         for kind, detail in Ob.validate_ir(built.ir, original_blocks=set(built.blocks.values()), self_loop_blocks=built.self_loops,
-                                           input_next=input_next):
+                                           input_next=input_next, nocode_after=nocode_after):
             out.fail("C05.valid", kind, detail)
     # faults: every k
     out.extra_runs = []
